@@ -1,5 +1,6 @@
 """C04 - deterministic targets: incumbent bookkeeping replayed through Inc.step; the result checked against the
 target wrapper's own call log."""
+import json
 from ..core import Report
 from ..proto import enc, enc_pt
 from . import runlevel
@@ -59,7 +60,8 @@ def run_checks(ctx, rep):
                 stats["moves"] += 1
             prev = st
             if st["u"] != enc_pt(ob["u"]) or st["fval"] != enc(ob["fval"]) or enc(ob["yval"]) != enc(ob["fval"]):
-                rep.disagree("Inc.step ~ _search_step_/_poll_step_ incumbent update", f"event {i} ({events[i]['t']}): model (u,fval)=({st['u']},{st['fval']}) observed ({ob['u']},{ob['yval']},{ob['fval']}); {tag}", case)
+                rep.disagree("Inc.step ~ _search_step_/_poll_step_ incumbent update", f"event {i} ({events[i]['t']}): model (u,fval)=({st['u']},{st['fval']}) observed ({ob['u']},{ob['yval']},{ob['fval']}); {tag}",
+                             dict(case, iter_hint=int(ob.get("it", 0)), calls_hint=int(ob.get("fc", 0))))
                 break
         # ---- the property on the observed run, against the wrapper's own call log -----------------------------
         if t["error"] is not None:
@@ -160,7 +162,21 @@ def widen(ctx, rep0):
     rep = Report()
     from .. import tracer, gen
     rng = ctx.sub_rng("c04w")
-    specs = start_at_optimum_specs(type(ctx)(ctx.pid, "thorough", ctx.seed + 1), 40)
+    # (a) the runs on which the incumbent model and the code disagree, cut short right after the disagreeing step (same seed, same
+    #     trajectory up to there): if the code's incumbent is not the best evaluated point at that moment, the truncated run returns it
+    specs = []
+    for d in rep0.disagreements[:6]:
+        c = d.get("case") or {}
+        if "spec" not in c or "iter_hint" not in c:
+            continue
+        for extra in (0, 1, 2):
+            sp = json.loads(json.dumps(c["spec"]))
+            sp["options"] = dict(sp.get("options", {}), max_iter=max(1, c["iter_hint"] + extra))
+            specs.append(sp)
+        sp = json.loads(json.dumps(c["spec"]))
+        sp["options"] = dict(sp.get("options", {}), max_fun_evals=max(2, c["calls_hint"]))
+        specs.append(sp)
+    specs += start_at_optimum_specs(type(ctx)(ctx.pid, "thorough", ctx.seed + 1), 40)
     for _ in range(60):
         sp = gen.make_spec(rng, mode="det", cons="rand")
         sp["options"] = gen.small_options(rng, sp["D"], "det")
